@@ -18,6 +18,7 @@ import subprocess
 import sys
 import time
 
+TMPBASE = os.environ.get("SEEDVAL_TMP", "/tmp/seedval")
 ENV = dict(os.environ, GOFLAGS="-mod=mod", GOPROXY="off", GOSUMDB="off")
 VERIF = os.path.dirname(os.path.dirname(os.path.abspath(__file__)))
 
@@ -28,13 +29,25 @@ def sh(cmd, cwd=None, timeout=1800):
 
 
 def suite(wt):
-    for attempt in range(3):
-        rc, out = sh("go test -vet=off -count=1 ./...", cwd=wt)
-        fails = [l for l in out.splitlines() if l.startswith("--- FAIL") or l.startswith("FAIL")]
-        demo_fail = [l for l in out.splitlines() if "SeedDemo" in l or "seed_demo" in l]
-        if rc == 0:
-            return True, "pass (attempt %d)" % (attempt + 1)
-    return False, "\n".join(fails[:10])
+    """f1's own suite; its timing tests flake under CPU load, so packages that fail are re-run on their own."""
+    rc, out = sh("go test -vet=off -count=1 ./...", cwd=wt)
+    if rc == 0:
+        return True, "pass"
+    if "[build failed]" in out or "cannot find" in out:
+        return False, out[-800:]
+    fails = []
+    for pkg in sorted(set(re.findall(r"^FAIL\s+(\S+)", out, re.M))):
+        ok = False
+        for attempt in range(4):
+            rc2, out2 = sh("go test -vet=off -count=1 -parallel 4 %s" % pkg, cwd=wt)
+            if rc2 == 0:
+                ok = True
+                break
+        if not ok:
+            fails += [l for l in out2.splitlines() if l.startswith("--- FAIL") or l.startswith("FAIL")][:6]
+    if fails:
+        return False, "\n".join(fails[:10])
+    return True, "pass (packages with timing flakes re-run on their own)"
 
 
 def demo_tests(demo_dir):
@@ -78,9 +91,9 @@ def main():
     dst = os.path.join(VERIF, "seeded", name)
     reval = args.src == "seeded"  # re-validate what is kept under /verif/seeded/<id>/ (e.g. after rebasing its patch)
     if reval:
-        shutil.rmtree("/tmp/seedval/src-%s" % name, ignore_errors=True)
-        os.makedirs("/tmp/seedval/src-%s" % name)
-        src = "/tmp/seedval/src-%s" % name
+        shutil.rmtree(TMPBASE + "/src-%s" % name, ignore_errors=True)
+        os.makedirs(TMPBASE + "/src-%s" % name)
+        src = TMPBASE + "/src-%s" % name
         shutil.copy(os.path.join(dst, "patch.diff"), os.path.join(src, "%s.patch.diff" % args.x))
         if os.path.isdir(os.path.join(dst, "demo")):
             shutil.copytree(os.path.join(dst, "demo"), os.path.join(src, "%s.demo" % args.x))
@@ -117,7 +130,7 @@ def main():
         meta["property"] = claimed[0] if claimed else "?"
         meta["claimed_properties"] = claimed
     if not args.skip_validate:
-        wt = "/tmp/seedval/%s" % name
+        wt = TMPBASE + "/%s" % name
         sh("git -C /repo worktree remove --force %s" % wt)
         shutil.rmtree(wt, ignore_errors=True)
         rc, out = sh("git -C /repo worktree add -q --detach %s HEAD" % wt)
@@ -164,14 +177,14 @@ def main():
     # (3) the checks, against a private worktree with the patch applied (VERIF_REPO), so that /repo stays free
     primary = [args.prop] if re.match(r"^C\d+$", args.prop) else claimed
     checks = primary + [c for c in args.checks.split(",") if c and c not in primary]
-    wt = "/tmp/seedval/run-%s" % name
+    wt = TMPBASE + "/run-%s" % name
     sh("git -C /repo worktree remove --force %s" % wt)
     shutil.rmtree(wt, ignore_errors=True)
     rc, out = sh("git -C /repo worktree add -q --detach %s HEAD" % wt)
     if rc != 0:
         print(out)
         return 2
-    outdir = "/tmp/seedval/out-%s" % name
+    outdir = TMPBASE + "/out-%s" % name
     shutil.rmtree(outdir, ignore_errors=True)
     detected = {}
     try:
